@@ -489,3 +489,64 @@ pub fn mix(seed: u64, stream: u64) -> u64 {
     z = (z ^ (z >> 27)).wrapping_mul(0x94d049bb133111eb);
     z ^ (z >> 31)
 }
+
+/// Delta-debugging pass over the documents of a failing case: drop documents, then fields, as
+/// long as `judge` still reports a violation. Returns the reduced case and its message.
+pub fn minimise_case(case: &Case, judge: &dyn Fn(&Case) -> Outcome) -> (Case, String) {
+    let fails = |c: &Case| -> Option<String> {
+        match judge(c) {
+            Outcome::Violation(m) => Some(m),
+            _ => None,
+        }
+    };
+    let mut best = case.clone();
+    let mut msg = match fails(&best) {
+        Some(m) => m,
+        None => return (best, String::from("violation did not reproduce during minimisation")),
+    };
+    // documents
+    let mut i = 0;
+    while best.docs.len() > 1 && i < best.docs.len() {
+        let mut c = best.clone();
+        c.docs.remove(i);
+        if let Some(m) = fails(&c) {
+            best = c;
+            msg = m;
+        } else {
+            i += 1;
+        }
+    }
+    // top-level and second-level fields
+    for di in 0..best.docs.len() {
+        let mut fi = 0;
+        while fi < best.docs[di].0.len() {
+            let mut c = best.clone();
+            c.docs[di].0.remove(fi);
+            if let Some(m) = fails(&c) {
+                best = c;
+                msg = m;
+                continue;
+            }
+            // try reducing inside an object value
+            if let crate::model::DocVal::Obj(o) = &best.docs[di].0[fi].1 {
+                let mut k = 0;
+                let mut inner = o.clone();
+                while k < inner.0.len() {
+                    let mut candidate = inner.clone();
+                    candidate.0.remove(k);
+                    let mut c = best.clone();
+                    c.docs[di].0[fi].1 = crate::model::DocVal::Obj(candidate.clone());
+                    if let Some(m) = fails(&c) {
+                        best = c;
+                        msg = m;
+                        inner = candidate;
+                    } else {
+                        k += 1;
+                    }
+                }
+            }
+            fi += 1;
+        }
+    }
+    (best, msg)
+}
